@@ -571,7 +571,7 @@ func evalDeploy(in *caseInput) ([]violation, bool, error) {
 
 		kc.ClearActions()
 		if err := cl.TeardownLease(ctx, lid); err != nil {
-			return nil, false, machineryError{"TeardownLease: " + err.Error()}
+			return out, false, machineryError{"TeardownLease: " + err.Error()} // what was found so far is judged first
 		}
 		dels := 0
 		for _, a := range kc.Actions() {
